@@ -2,6 +2,7 @@ package main
 
 import (
 	"fmt"
+	"math"
 
 	"github.com/sahandsafizadeh/qeep/component/layers"
 	"github.com/sahandsafizadeh/qeep/tensor"
@@ -90,7 +91,32 @@ func sgdApply(w, g *ref.T, lr float64) *ref.T {
 
 // c11Run executes one training history on the real components and compares it
 // step by step with the model trajectory.
-func c11Run(m c11Model, x, t *ref.T, init c11Weights, defaultInit bool, steps int, dev c11Dev) core.Verdict {
+type c11Devs []c11Dev
+
+func (ds c11Devs) has(kind string, step, k int) bool {
+	for _, d := range ds {
+		if d.kind == kind && d.step == step && d.k == k {
+			return true
+		}
+	}
+	return false
+}
+
+func (ds c11Devs) String() string {
+	if len(ds) == 0 {
+		return "default"
+	}
+	s := ""
+	for i, d := range ds {
+		if i > 0 {
+			s += "+"
+		}
+		s += d.String()
+	}
+	return s
+}
+
+func c11Run(m c11Model, x, t *ref.T, init c11Weights, defaultInit bool, steps int, dev c11Devs) core.Verdict {
 	var fc *layers.FC
 	var err error
 	if defaultInit {
@@ -116,7 +142,8 @@ func c11Run(m c11Model, x, t *ref.T, init c11Weights, defaultInit bool, steps in
 	alt := init   // trajectory under the listed finding's mean-model
 	exactOK, altOK := true, true
 	tracked := [2]bool{true, true}
-	spent := [2]bool{false, false} // weight was updated but not reset (omitted reset)
+	spent := [2]bool{false, false} // the tensor behind the pointer took part in a back-propagation (or was computed from one that did) and was not reset
+	var pend, pendAlt [2]*ref.T    // model gradient currently stored on the tensor behind each pointer (exact / mean-model)
 
 	for s := 0; s < steps; s++ {
 		// ---- real step ----
@@ -146,47 +173,44 @@ func c11Run(m c11Model, x, t *ref.T, init c11Weights, defaultInit bool, steps in
 		lossVal, _ := l.At()
 
 		// ---- model step ----
+		// A forward pass that uses a spent weight (updated or back-propagated
+		// and not reset) yields an untracked loss: its back-propagation
+		// changes nothing.
 		stale := spent[0] || spent[1]
-		effTracked := tracked
-		var lv, lvAlt float64
-		var gw, gb, gwA, gbA *ref.T
-		var ok1, ok2 bool
+		lv, gw, gb, ok1 := m.modelGrads(x, t, exact, tracked, false)
+		lvAlt, gwA, gbA, ok2 := m.modelGrads(x, t, alt, tracked, true)
+		if !ok1 || !ok2 {
+			return core.Skip()
+		}
+		if exactOK && !closeScalar(lossVal, lv) {
+			exactOK = false
+		}
+		if altOK && !closeScalar(lossVal, lvAlt) {
+			altOK = false
+		}
+		if !exactOK && !altOK {
+			return core.Fail("step %d: loss value %v, model %v (mean-model trajectory %v)", s, lossVal, lv, lvAlt)
+		}
 		if !stale {
-			lv, gw, gb, ok1 = m.modelGrads(x, t, exact, effTracked, false)
-			lvAlt, gwA, gbA, ok2 = m.modelGrads(x, t, alt, effTracked, true)
-			if !ok1 || !ok2 {
-				return core.Skip()
-			}
-			if exactOK && !closeScalar(lossVal, lv) {
-				exactOK = false
-			}
-			if altOK && !closeScalar(lossVal, lvAlt) {
-				altOK = false
-			}
-			if !exactOK && !altOK {
-				return core.Fail("step %d: loss value %v, model %v (mean-model trajectory %v)", s, lossVal, lv, lvAlt)
+			for k, g := range [2][2]*ref.T{{gw, gwA}, {gb, gbA}} {
+				if tracked[k] {
+					pend[k], pendAlt[k] = g[0], g[1] // fresh leaves: no earlier gradient to add to
+					spent[k] = true
+				}
 			}
 		}
 		ws := fc.Weights()
 		for k := 0; k < 2; k++ {
 			before := *ws[k].Value
-			skip := dev.kind == "skipupdate" && dev.step == s && dev.k == k
-			if skip {
+			if dev.has("skipupdate", s, k) {
 				continue
 			}
 			uerr := opt.Update(ws[k].Value)
-			expectErr := stale || !tracked[k]
-			if stale && !spent[k] && tracked[k] {
-				// the other weight after an omitted reset: the statement only
-				// requires the omitted one to be reported; accept an error that
-				// replaces nothing
+			if pend[k] == nil {
+				// no gradient on the tensor behind the pointer: untracked weight,
+				// or a weight that was updated and never reset (stale graph)
 				if uerr == nil {
-					return core.Fail("step %d: Update of weight %d succeeded although the forward pass used a weight that was never reset (stale graph)", s, k)
-				}
-			}
-			if expectErr {
-				if uerr == nil {
-					return core.Fail("step %d: Update of weight %d (reset omitted / untracked) returned no error: silently training on stale state", s, k)
+					return core.Fail("step %d: Update of weight %d returned no error although the tensor has no gradient (tracked=%v, reset omitted or forward pass on a stale graph=%v): silently training on stale state", s, k, tracked[k], stale)
 				}
 				if *ws[k].Value != before {
 					return core.Fail("step %d: failed Update replaced weight %d", s, k)
@@ -196,7 +220,13 @@ func c11Run(m c11Model, x, t *ref.T, init c11Weights, defaultInit bool, steps in
 			if uerr != nil {
 				return core.Fail("step %d: Update of weight %d: %v", s, k, uerr)
 			}
-			if dev.kind == "update2" && dev.step == s && dev.k == k {
+			if k == 0 {
+				exact.w, alt.w = sgdApply(exact.w, pend[k], lr), sgdApply(alt.w, pendAlt[k], lr)
+			} else {
+				exact.b, alt.b = sgdApply(exact.b, pend[k], lr), sgdApply(alt.b, pendAlt[k], lr)
+			}
+			pend[k], pendAlt[k] = nil, nil // the new tensor has no gradient (and is computed from a spent one)
+			if dev.has("update2", s, k) {
 				after := *ws[k].Value
 				if err2 := opt.Update(ws[k].Value); err2 == nil {
 					return core.Fail("step %d: second Update of weight %d in the same step returned no error", s, k)
@@ -206,32 +236,6 @@ func c11Run(m c11Model, x, t *ref.T, init c11Weights, defaultInit bool, steps in
 				}
 			}
 		}
-		if stale {
-			// history ends here: both weights must be what they were
-			if ok, msg := core.Close(rt.Read(fc.Weight), pick(exactOK, exact.w, alt.w), 100); !ok {
-				return core.Fail("step %d after rejected updates, W changed: %s", s, msg)
-			}
-			if ok, msg := core.Close(rt.Read(fc.Bias), pick(exactOK, exact.b, alt.b), 100); !ok {
-				return core.Fail("step %d after rejected updates, B changed: %s", s, msg)
-			}
-			if !exactOK {
-				return core.Verdict{KF: kfBroadcastAvg, Detail: fmt.Sprintf("%s: trajectory follows the mean-model of the listed finding up to the rejected update", m)}
-			}
-			return core.Pass()
-		}
-		// model update
-		upd := func(cur c11Weights, gw, gb *ref.T) c11Weights {
-			n := cur
-			if tracked[0] && !(dev.kind == "skipupdate" && dev.step == s && dev.k == 0) {
-				n.w = sgdApply(cur.w, gw, lr)
-			}
-			if tracked[1] && !(dev.kind == "skipupdate" && dev.step == s && dev.k == 1) {
-				n.b = sgdApply(cur.b, gb, lr)
-			}
-			return n
-		}
-		exact = upd(exact, gw, gb)
-		alt = upd(alt, gwA, gbA)
 		// compare weights
 		gotW, gotB := rt.Read(fc.Weight), rt.Read(fc.Bias)
 		if exactOK {
@@ -258,15 +262,16 @@ func c11Run(m c11Model, x, t *ref.T, init c11Weights, defaultInit bool, steps in
 		for k := 0; k < 2; k++ {
 			wt := *ws[k].Value
 			switch {
-			case dev.kind == "noreset" && dev.step == s && dev.k == k:
-				spent[k] = true
-			case dev.kind == "resetfalse" && dev.step == s && dev.k == k:
+			case dev.has("noreset", s, k):
+				// nothing: the tensor stays as it is (spent if it was reached or replaced)
+			case dev.has("resetfalse", s, k):
 				wt.ResetGradContext(false)
-				tracked[k] = false
+				tracked[k], spent[k], pend[k], pendAlt[k] = false, false, nil, nil
 			default:
 				wt.ResetGradContext(tracked[k])
+				spent[k], pend[k], pendAlt[k] = false, nil, nil
 			}
-			if !(dev.kind == "noreset" && dev.step == s && dev.k == k) {
+			if !(dev.has("noreset", s, k)) {
 				tr_, dirty, g, targets, _ := tensor.VerifGradState(wt)
 				if tr_ != tracked[k] || dirty || g != nil || len(targets) != 0 || wt.Gradient() != nil {
 					return core.Fail("after reset in step %d weight %d is not a fresh leaf: tracked=%v spent=%v gradient=%v edges=%d", s, k, tr_, dirty, g != nil, len(targets))
@@ -316,12 +321,30 @@ func checkC11(c *core.Ctx) {
 		maxDim = 3
 		steps = 4
 	}
-	var devs []c11Dev
-	devs = append(devs, c11Dev{})
+	var single []c11Dev
 	for s := 0; s < steps-1; s++ {
 		for k := 0; k < 2; k++ {
 			for _, kind := range []string{"noreset", "resetfalse", "update2", "skipupdate"} {
-				devs = append(devs, c11Dev{kind: kind, step: s, k: k})
+				single = append(single, c11Dev{kind: kind, step: s, k: k})
+			}
+		}
+	}
+	devs := []c11Devs{nil}
+	for _, d := range single {
+		devs = append(devs, c11Devs{d})
+	}
+	if c.Thorough() {
+		// two deviations per history (different step/weight slots, or a reset
+		// deviation combined with an update deviation in the same slot)
+		for i, a := range single {
+			for _, b := range single[i+1:] {
+				sameSlot := a.step == b.step && a.k == b.k
+				aReset := a.kind == "noreset" || a.kind == "resetfalse"
+				bReset := b.kind == "noreset" || b.kind == "resetfalse"
+				if sameSlot && aReset == bReset {
+					continue
+				}
+				devs = append(devs, c11Devs{a, b})
 			}
 		}
 	}
@@ -331,14 +354,14 @@ func checkC11(c *core.Ctx) {
 				for _, act := range acts {
 					for _, loss := range []string{"MSE", "BCE", "CE"} {
 						for _, lr := range lrs {
-							for ini := 0; ini < 3; ini++ {
+							for ini := 0; ini < 4; ini++ {
 								for _, dev := range devs {
 									if c.Expired() {
 										return
 									}
 									m := c11Model{B, D, O, act, loss, lr}
 									ini, dev := ini, dev
-									nontrivial := dev.kind != "" || B > 1
+									nontrivial := len(dev) > 0 || B > 1
 									c.Case(fmt.Sprintf("%s/i%d/%s", m, ini, dev), nontrivial, func() core.Verdict {
 										x := enum.Generic([]int{B, D}, uint64(901+ini), 0.3, 1.5, true)
 										var t *ref.T
@@ -348,6 +371,14 @@ func checkC11(c *core.Ctx) {
 											t = enum.Generic([]int{B * O}, uint64(905+ini), 0.1, 0.9, false)
 										}
 										init := c11Weights{enum.Generic([]int{O}, uint64(911+ini), 0.2, 1.2, true), enum.Generic([]int{O}, uint64(915+ini), 0.2, 1.2, true)}
+										if ini == 3 {
+											// dead units: positive inputs, negative weights and biases, zero
+											// targets: with Relu every gradient and every MSE residual is exactly 0
+											x = ref.Map(x, func(v float64) float64 { return math.Abs(v) })
+											init.w = ref.Map(init.w, func(v float64) float64 { return -math.Abs(v) })
+											init.b = ref.Map(init.b, func(v float64) float64 { return -math.Abs(v) })
+											t = ref.FullOf(t.Shape, 0)
+										}
 										return c11Run(m, x, t, init, ini == 2, steps, dev)
 									})
 								}
